@@ -53,7 +53,7 @@ vfn!(v6, 6);
 vfn!(v7, 7);
 const VALIDATORS: [&ValidatorFn; 8] = [&v0, &v1, &v2, &v3, &v4, &v5, &v6, &v7];
 
-const KEYS: [&str; 9] = ["iss", "sub", "aud", "jti", "a", "b", "c", "iat", "é"];
+const KEYS: [&str; 11] = ["iss", "sub", "aud", "jti", "a", "b", "c", "iat", "é", "exp", "nbf"];
 
 #[derive(Clone, Debug, Serialize, Deserialize, PartialEq)]
 pub enum Corruption {
@@ -134,6 +134,9 @@ impl Sub for Validators {
         "aud" => ClaimSpec::Aud("x".into()),
         "jti" => ClaimSpec::Jti("y".into()),
         "iat" => ClaimSpec::Iat("2020-01-01T00:00:00Z".into()),
+        // a caller's own rule for exp / nbf (on the batteries-included parser it takes the place of the default rule)
+        "exp" => ClaimSpec::Exp("2020-01-01T00:00:00Z".into()),
+        "nbf" => ClaimSpec::NbfOwned("2020-01-01T00:00:00Z".into()),
         other if id % 2 == 0 => ClaimSpec::Custom(other.to_string(), json!(1)),
         other => ClaimSpec::Any(other.to_string(), Value::Null),
       })
@@ -143,7 +146,13 @@ impl Sub for Validators {
     for tv in &c.tokens {
       let mut o = serde_json::Map::new();
       for (ki, v) in &tv.members {
-        o.insert(KEYS[(*ki as usize) % KEYS.len()].to_string(), v.clone());
+        let k = KEYS[(*ki as usize) % KEYS.len()];
+        // the batteries-included parser keeps its own rule for exp / nbf unless the caller registered one:
+        // such members stay out of the payload so that the model below is only about the caller's validators
+        if c.layer == Layer::Prelude && (k == "exp" || k == "nbf") && !vals.iter().any(|(_, vk, _)| vk == k) {
+          continue;
+        }
+        o.insert(k.to_string(), v.clone());
       }
       let payload = Value::Object(o.clone()).to_string();
       let t = match core_build(&lk, &[2u8; 32][..if p == Proto::V2L { 24 } else { 32 }], &payload, c.footer.as_deref(), assertion) {
@@ -303,7 +312,7 @@ fn case(proto: Proto, layer: Layer) -> BoxedStrategy<ValCase> {
     1 => any::<u8>().prop_map(Corruption::Truncate),
   ];
   // the batteries-included parser has its own validators for exp/nbf; iat (index 7) only carries plain values here
-  let tok = (vec((0u8..9, member_value()), 0..5), corruption).prop_map(|(members, corruption)| TokVar { members, corruption });
+  let tok = (vec((0u8..11, member_value()), 0..5), corruption).prop_map(|(members, corruption)| TokVar { members, corruption });
   // histories: some tokens repeat the previous one verbatim (same text), authentic again or presented under a wrong key /
   // footer / assertion - a parser that remembers its last token must not behave differently
   let toks = vec((tok, 0u8..8), 1..=6).prop_map(|v| {
@@ -318,7 +327,7 @@ fn case(proto: Proto, layer: Layer) -> BoxedStrategy<ValCase> {
     }
     out
   });
-  (gen::bytes32(), vec((0u8..9, 0u8..5), 0..5), toks, prop_oneof![Just(None), gen::jsonish(6).prop_map(Some)], prop_oneof![Just(None), gen::jsonish(6).prop_map(Some)])
+  (gen::bytes32(), vec((0u8..11, 0u8..5), 0..5), toks, prop_oneof![Just(None), gen::jsonish(6).prop_map(Some)], prop_oneof![Just(None), gen::jsonish(6).prop_map(Some)])
     .prop_map(move |(seed, validators, tokens, footer, assertion)| ValCase { proto, layer, seed, validators, tokens, footer, assertion })
     .boxed()
 }
